@@ -67,6 +67,34 @@ func lastSelName(e ast.Expr) string {
 	return ""
 }
 
+// isSemExpr: e denotes the concurrency semaphore — a struct field whose name is in semNames (field names are part of
+// the type's definition), or a local variable of type chan struct{} defined by a buffered make (whatever its name).
+func isSemExpr(b *Body, e ast.Expr, semNames map[string]bool) bool {
+	info := b.Info()
+	switch x := ast.Unparen(e).(type) {
+	case *ast.SelectorExpr:
+		return semNames[x.Sel.Name]
+	case *ast.Ident:
+		v, ok := info.Uses[x].(*types.Var)
+		if !ok {
+			v, ok = info.Defs[x].(*types.Var)
+		}
+		if !ok || !isStructChan(v.Type()) {
+			return false
+		}
+		for _, d := range defsOfVarWithIndex(b.Fn, v) {
+			if call, ok := d.rhs.(*ast.CallExpr); ok && d.rhs != nil {
+				if id, ok := ast.Unparen(call.Fun).(*ast.Ident); ok && id.Name == "make" && len(call.Args) == 2 {
+					return true
+				}
+			}
+		}
+		// a parameter carrying the semaphore keeps its API name
+		return semNames[x.Name] && paramIndex(b.Fn, v) >= 0
+	}
+	return false
+}
+
 // checkFanoutWorker checks clause (w) on a worker body. semNames are the accepted names of the semaphore.
 func checkFanoutWorker(c *Ctx, rule string, b *Body, semNames map[string]bool) {
 	p := c.P
@@ -85,7 +113,7 @@ func checkFanoutWorker(c *Ctx, rule string, b *Body, semNames map[string]bool) {
 			continue
 		}
 		for _, x := range semReceiveIn(info, lit.Body) {
-			if semNames[lastSelName(x)] {
+			if isSemExpr(b, x, semNames) {
 				if relIdx < 0 {
 					relIdx, relPos = i, d.Pos()
 				}
@@ -97,7 +125,7 @@ func checkFanoutWorker(c *Ctx, rule string, b *Body, semNames map[string]bool) {
 		pos := b.Block.Pos()
 		detail := "worker has no deferred release of its concurrency slot (`defer func(){ <-sem }()` at the top level of the worker)"
 		ast.Inspect(b.Block, func(n ast.Node) bool {
-			if u, ok := n.(*ast.UnaryExpr); ok && u.Op == token.ARROW && semNames[lastSelName(u.X)] {
+			if u, ok := n.(*ast.UnaryExpr); ok && u.Op == token.ARROW && isSemExpr(b, u.X, semNames) {
 				pos = u.Pos()
 				detail = "worker releases its concurrency slot outside a top-level defer: the release can precede a result/error send, so the coordinator's done signal can overtake that send and the collector loses it"
 			}
@@ -160,7 +188,7 @@ func checkFanoutWorker(c *Ctx, rule string, b *Body, semNames map[string]bool) {
 		if n == relDefer {
 			return false
 		}
-		if u, ok := n.(*ast.UnaryExpr); ok && u.Op == token.ARROW && semNames[lastSelName(u.X)] && isStructChan(info.TypeOf(u.X)) {
+		if u, ok := n.(*ast.UnaryExpr); ok && u.Op == token.ARROW && isSemExpr(b, u.X, semNames) && isStructChan(info.TypeOf(u.X)) {
 			bad, badPos = "the worker also releases its concurrency slot explicitly, outside the release defer: a later send is no longer covered by the slot", u.Pos()
 		}
 		return true
@@ -180,7 +208,7 @@ func checkFanoutCoordinator(c *Ctx, rule string, b *Body, semNames map[string]bo
 	key := b.Key()
 	isSemSend := func(n ast.Node) bool {
 		s, ok := n.(*ast.SendStmt)
-		return ok && semNames[lastSelName(s.Chan)] && isStructChan(info.TypeOf(s.Chan))
+		return ok && isSemExpr(b, s.Chan, semNames) && isStructChan(info.TypeOf(s.Chan))
 	}
 	// the fill loop: for i := 0; i < cap(sem); i++ { sem <- struct{}{} }
 	var fillSends = map[ast.Node]bool{}
@@ -201,7 +229,7 @@ func checkFanoutCoordinator(c *Ctx, rule string, b *Body, semNames map[string]bo
 		if id, ok := ast.Unparen(call.Fun).(*ast.Ident); !ok || id.Name != "cap" {
 			return true
 		}
-		if !semNames[lastSelName(call.Args[0])] {
+		if !isSemExpr(b, call.Args[0], semNames) {
 			return true
 		}
 		// loop variable starts at 0 and is incremented by one
@@ -339,4 +367,67 @@ func sendOn(name string) func(n ast.Node) bool {
 		s, ok := n.(*ast.SendStmt)
 		return ok && lastSelName(s.Chan) == name
 	}
+}
+
+// collectorChan is a channel the collector receives from in a select statement.
+type collectorChan struct {
+	v          *types.Var
+	elem       string // element type, used as the role of the channel
+	made       bool
+	unbuffered bool
+	pos        token.Pos
+}
+
+// collectorChannels lists the local channel variables the collector body receives from inside select statements
+// (found by use, not by name), with the shape of the make that created them.
+func collectorChannels(b *Body) []collectorChan {
+	info := b.Info()
+	seen := map[*types.Var]bool{}
+	var out []collectorChan
+	ast.Inspect(b.Block, func(n ast.Node) bool {
+		cc, ok := n.(*ast.CommClause)
+		if !ok || cc.Comm == nil {
+			return true
+		}
+		ast.Inspect(cc.Comm, func(m ast.Node) bool {
+			u, ok := m.(*ast.UnaryExpr)
+			if !ok || u.Op != token.ARROW {
+				return true
+			}
+			id, ok := ast.Unparen(u.X).(*ast.Ident)
+			if !ok {
+				return true
+			}
+			v, ok := info.Uses[id].(*types.Var)
+			if !ok || seen[v] {
+				return true
+			}
+			ch, ok := v.Type().Underlying().(*types.Chan)
+			if !ok {
+				return true
+			}
+			seen[v] = true
+			cch := collectorChan{v: v, elem: types.TypeString(ch.Elem(), func(p *types.Package) string { return p.Name() }), pos: id.Pos()}
+			for _, d := range defsOfVarWithIndex(b.Fn, v) {
+				call, ok := d.rhs.(*ast.CallExpr)
+				if d.rhs == nil || !ok {
+					continue
+				}
+				if fid, ok := ast.Unparen(call.Fun).(*ast.Ident); !ok || fid.Name != "make" {
+					continue
+				}
+				cch.made = true
+				cch.pos = call.Pos()
+				if len(call.Args) == 1 {
+					cch.unbuffered = true
+				} else if tv, ok := info.Types[call.Args[1]]; ok && tv.Value != nil && tv.Value.String() == "0" {
+					cch.unbuffered = true
+				}
+			}
+			out = append(out, cch)
+			return true
+		})
+		return true
+	})
+	return out
 }
